@@ -38,7 +38,11 @@ def build(root, profile="dev", gen_src=None):
     if p.returncode != 0:
         _built[key] = (None, p.stdout[-3000:])
     else:
-        _built[key] = (os.path.join(work, "target", "debug" if profile == "dev" else "release", "uv_replay"), "")
+        built = os.path.join(work, "target", "debug" if profile == "dev" else "release", "uv_replay")
+        # the same target dir is reused for several generated programs: keep a copy per (profile, program)
+        keep = os.path.join(work, f"uv_replay-{profile}-{abs(hash(gen_src)) % (10 ** 12)}")
+        shutil.copy2(built, keep)
+        _built[key] = (keep, "")
     return _built[key]
 
 
@@ -65,6 +69,8 @@ def expected_lifecycle(p):
     if b("panicking"):
         # C11: never a second panic => the child reports the *first* panic, no abort
         return ("panic", "user panic (first)")
+    if action == "noverify_clone_of_disabled":
+        return ("panic", "cloned instance")
     if who_clone:
         if action in ("verify", "noverify"):
             return ("panic", "cloned instance")
@@ -102,6 +108,8 @@ def matches(obs, exp):
 def lifecycle_neighbourhood(seed_params):
     """The model's scenario first, then a fixed battery around it."""
     out = [dict(seed_params)]
+    out.append(dict(who="original", action="noverify_clone_of_disabled", panicking=0, clones=0, other_thread=0, recorded=0, unmet=0, helper=0))
+    out.append(dict(who="original", action="noverify_clone_of_disabled", panicking=0, clones=0, other_thread=0, recorded=0, unmet=1, helper=0))
     for who, action in (("original", "drop"), ("original", "verify"), ("original", "report"), ("clone", "drop"), ("original", "noverify")):
         for panicking, clones, other, recorded, unmet, helper in itertools.product((0, 1), (0, 1), (0, 1), (0, 1, 2), (0, 1), (0, 1)):
             if action in ("verify", "report", "noverify") and panicking:
@@ -182,6 +190,11 @@ def replay_mirsym(prop, unit, root, replays):
     os.makedirs(os.path.dirname(rp), exist_ok=True)
     if unit["name"] in LIFECYCLE_UNITS:
         ok, detail = replay_lifecycle(prop, unit, root, replays, models)
+        if ok is not True and unit["name"] == "teardown_panic/report":
+            from . import replay_more
+            ok2, d2 = replay_more.replay(prop, unit, root, models)
+            if ok2 is not None:
+                ok, detail = ok2, (detail or "") + "\n" + (d2 or "")
     else:
         from . import replay_more
         ok, detail = replay_more.replay(prop, unit, root, models)
